@@ -5,6 +5,8 @@ _PARTS = [
     ("c09_pool_state_a", "2"),
     ("c09_pool_state_b", "3"),
     ("c09_pool_state_c", "4"),
+    ("c09_pool_world", "5"),
+    ("c09_pool_u32", "6"),
 ]
 
 PROP = {
@@ -12,7 +14,8 @@ PROP = {
     "level": "proof",
     "technique": ("Lean 4 proofs (integer arithmetic of the buffer layout for every base address; invariant of the buffer/list/cache state "
                   "machine by induction over operations; separation-style reasoning for the prev/next pointer surgery) + function-level and "
-                  "state-level correspondence with the real MemPool on a memory manager that returns chosen addresses"),
+                  "state-level correspondence with the real MemPool on a memory manager that returns chosen addresses; a world of pool objects with "
+                  "tagged memory managers for Swap / move construction / move assignment; a second state machine for MemPoolUInt32"),
     "level_text": ("Kernel-checked theorems for every legal (blockSize, alignment <= 1024, blockCount < 128, cache size) and every integer base "
                    "address aligned as the pool assumes of its manager: pvGetBlockIndex inverts pvGetBlock; pvNewBuffer's blocks are aligned, pairwise "
                    "disjoint, inside [base, base+pvGetBufferSize()), disjoint from every metadata byte; the single-block form (16-bit offset); for "
@@ -31,7 +34,34 @@ PROP = {
                    "truncation explicit) and proved equal to the model functions whenever nothing wraps (Proof/TrEqPool.lean); the layout theorems are "
                    "restated for the generated definitions for every legal pool and every base address with base + pvGetBufferSize() < 2^63 "
                    "(C09_recover_translated, C09_newBuffer_ok_translated, C09_blocks_disjoint_inside_translated, C09_single_block_ok_translated, "
-                   "C09_params_translated)."),
+                   "C09_params_translated)."
+                   " MergeFrom for blockCount 1 (C09_single_merge: the other pool is left empty, the live blocks are those of both pools and each is "
+                   "freeable through the receiving pool, counts add up, exactly one legal free per cached block of the source, every other block "
+                   "transferred once) and every history of single-block pools including merges (C09_single_history: invariant, exact count, exact "
+                   "ledger, empty ledger after destruction)."
+                   " Swap / move construction / move assignment (MemPool(MemPool&&), operator=(MemPool&&), Swap, Data::Swap, Data(Data&&)) as "
+                   "operations of a world of pool objects, each holding parameters, a memory manager with an identity (none = moved-from) and a "
+                   "pool state; every manager call is tagged with the manager called. C09_swap_move_ok: Swap exchanges everything including the "
+                   "manager, move construction leaves the source empty with a moved-from manager and an empty pool is destroyed without any manager "
+                   "call, move assignment gives everything the target held back through the manager the target held. C09_world_history: over EVERY "
+                   "history of creation / Allocate / Deallocate / DeallocateIf / DeallocateAll / MergeFrom / Swap / move construction / move "
+                   "assignment / destruction, every object stays well formed with an exact count, for every manager the calls made to it are an exact "
+                   "ledger of the memory held by the objects holding that manager NOW (pairwise disjoint), no call ever goes through a moved-from "
+                   "manager, every live block is freeable through the object that now owns its buffer, and when all objects are destroyed every "
+                   "manager has everything back. The contract of MergeFrom (different memory) is derived there from the managers' contract. "
+                   " MemPoolUInt32 (second class of MemPool.h): executable model (index / buffer / offset arithmetic, free chain in the first word of "
+                   "free blocks keyed by ADDRESS, pvNewBuffer with the growth of the buffer array's storage, pvClear, DeallocateAll, destructor); "
+                   "C09_u32_geometry (index decomposition is a bijection; real blocks of distinct indices are disjoint, inside their buffer, "
+                   "aligned with the buffers), C09_u32_alloc_fresh (Allocate returns a non-live index inside the buffers or fails - bad_alloc / "
+                   "length_error - leaving buffers, chain, words and count unchanged), C09_u32_dealloc_exact, C09_u32_history (every history: "
+                   "invariant, exact count, the free chain as the code walks it never contains a live block, exact ledger of buffers AND array "
+                   "storage, DeallocateAll / destructor leave it empty)."
+                   " Pointer level of the traversals: C09_traversal_ptr (on a heap holding the list of the state machine, pvGetNextBuffer / "
+                   "pvGetPrevBuffer are the list view's nextOf / prevOf, walking next from the head visits exactly post, walking prev visits "
+                   "exactly pre), C09_deallocateAll_ptr (the two loops of DeallocateAll as written give back exactly pre ++ post in the order of "
+                   "the list-level loops), C09_deallocateIf_traversal_ptr (the two loops of DeallocateIf as written - next / prev read before the "
+                   "sweep - visit exactly the buffers the list-level loops visit, for every sweep that keeps a well-formed list and the unvisited "
+                   "buffers in place; shown for sweeps that unlink the buffer or leave it)."),
     "level_note": ("Trusted: Lean kernel, the three standard axioms, extractor (limits 128/1024/2/65536/16/-128), correspondence harness. "
                    "Modelled not verified: byte representation of the metadata (memcpy of int8/uint16/pointer values), the manager's contract "
                    "(alignment min(16, lowbit A); disjoint allocations), absence of 64-bit wrap-around of addresses (unbounded integers in the model). "
@@ -59,6 +89,17 @@ PROP = {
         "Momo.Pool.C09_blocks_disjoint_inside_translated",
         "Momo.Pool.C09_single_block_ok_translated",
         "Momo.Pool.C09_params_translated",
+        "Momo.Pool.C09_single_merge",
+        "Momo.Pool.C09_single_history",
+        "Momo.Pool.C09_swap_move_ok",
+        "Momo.Pool.C09_world_history",
+        "Momo.Pool.C09_traversal_ptr",
+        "Momo.Pool.C09_deallocateAll_ptr",
+        "Momo.Pool.C09_deallocateIf_traversal_ptr",
+        "Momo.PoolU32.C09_u32_geometry",
+        "Momo.PoolU32.C09_u32_alloc_fresh",
+        "Momo.PoolU32.C09_u32_dealloc_exact",
+        "Momo.PoolU32.C09_u32_history",
     ],
     "harnesses": [
         {"name": name, "src": "c09_pool.cpp", "sanitize": "asan",
@@ -76,16 +117,34 @@ PROP = {
              "for every blockCount in {1,2,3,5,32,127} x cache in {0,1,16}: random histories (Allocate with chosen, adjacent, reused addresses and "
              "injected bad_alloc, Deallocate biased to empty buffers, DeallocateIf with four selection patterns, DeallocateAll, MergeFrom, destruction) "
              "over up to three pools sharing one manager. distinct_nontrivial counts distinct (S,A,N,residue) layouts, distinct dll shapes and "
-             "histories; a history is counted in state.histories_nontrivial when it had >= 2 buffers alive and returned >= 1 buffer before the end."),
+             "histories; a history is counted in state.histories_nontrivial when it had >= 2 buffers alive and returned >= 1 buffer before the end. "
+             "dll rounds additionally walk the real links from the head (`pwalk`) and compare the order in which the real DeallocateAll gives the buffers "
+             "back (`pdall`). world (part 5): for (blockCount, cache) in {(1,0),(1,4),(2,0),(3,2),(5,16),(32,0)} random histories over up to five real "
+             "pools with two (block size, alignment) settings and memory managers tagged 1 / 2 (moved-from managers get tag -1): new, Allocate "
+             "(chosen addresses, injected bad_alloc), Deallocate, DeallocateAll, MergeFrom (equal parameters and managers), Swap (member and friend), "
+             "move construction, move assignment, destruction; every answer, every manager call WITH the manager called, parameters, manager, count, "
+             "cache and list of both objects are compared; a free through another manager than the one that allocated, or any call through a "
+             "moved-from manager, is a property-level FAIL; world.histories_nontrivial = histories with >= 1 swap and >= 1 move. u32 (part 6): "
+             "MemPoolUInt32<N> for N in {1,2,3,4,16,64}, block sizes 1..48, buffer limits from 1 buffer to 4e9 blocks: Allocate with chosen addresses "
+             "for BOTH requests (array storage, buffer) and bad_alloc injected at either, length_error at the limit, Deallocate of random live "
+             "indices, DeallocateAll, dumps of the free chain, destruction; compared: index, every manager call, head, count, buffer addresses, "
+             "array capacity, real pointer and its (buffer, offset); u32.histories_nontrivial = histories with >= 3 buffers and >= 1 complete clear."),
     "runtime_only": [
         "pool code never touches a live block or memory it does not own: ASan poisoning of all live blocks and of the whole arena outside "
         "outstanding allocations while pool code runs, canary bytes outside allocations, pattern bytes inside live blocks",
         "no undefined behaviour in the address arithmetic (UBSan)",
     ],
     "not_modelled": [
-        "MergeFrom for blockCount == 1 (cache flush + count transfer): executable and compared with the real pool, no kernel theorem",
-        "refinement of the whole state machine to the pointer level: the list operations are proved pointer-correct one by one (C09_mergeFrom_dll, C09_list_ops_dll); the traversals of DeallocateAll / DeallocateIf follow next/prev on the list view",
-        "MemPoolUInt32 (DataColumn rows), the use of MemPool inside TreeNode.h / BucketUtility.h (covered through the containers by C02/C03)",
-        "Swap / move construction of pools (plain field exchange)",
+        "one combined pointer-level state machine: the list operations are proved pointer-correct one by one (C09_mergeFrom_dll, C09_list_ops_dll), "
+        "the reads and walks of the traversals, DeallocateAll's two loops and DeallocateIf's two loops with abstract sweeps are proved pointer-correct "
+        "(C09_traversal_ptr, C09_deallocateAll_ptr, C09_deallocateIf_traversal_ptr); the composition of a sweep's block-level work (pvDeleteBlocks) "
+        "with its list surgery inside one pointer-level DeallocateIf is not a single theorem",
+        "the use of MemPool inside TreeNode.h / BucketUtility.h and of MemPoolUInt32 inside HashBucketLim4.h (covered through the containers by C01/C02/C03)",
+        "MemPoolUInt32: the contents of the buffer array's storage (the pointers) are abstract (a list); that the storage does not overlap a buffer is "
+        "the manager's contract and is checked at run time only; 32-bit truncation of indices is modelled (w32) and proved absent under the "
+        "constructor's assertion maxTotalBlockCount < 2^32-1",
+        "world model: `Params` of MemPoolParamsStatic (no run-time fields) and managers whose moved-from state is still usable; self-swap and "
+        "self-move-assignment (the harness does not perform them); memory managers that compare equal but are distinct objects with different "
+        "lifetimes (the situation of finding F26) are represented by one identity",
     ],
 }
